@@ -75,6 +75,25 @@ o("int", i.get())
 sa = ntcore.StringArrayTopic(inst.getTopic(P + "/sa")).getEntry([])
 sa.set(["a", "b"])
 o("string-array", sa.get())
+# argument rules of the compiled getters (TypeError or accepted)
+def accepts(mk):
+    try:
+        mk()
+        return "accepted"
+    except TypeError:
+        return "TypeError"
+
+
+for i, (T, v) in enumerate(((ntcore.DoubleTopic, "s"), (ntcore.BooleanTopic, 1), (ntcore.IntegerTopic, 1.5), (ntcore.StringTopic, 3), (ntcore.DoubleTopic, 3),
+                            (ntcore.IntegerTopic, True), (ntcore.DoubleArrayTopic, [1, 2]), (ntcore.DoubleArrayTopic, (1.0,)), (ntcore.BooleanArrayTopic, [1, 0]),
+                            (ntcore.StringArrayTopic, [1]), (ntcore.IntegerArrayTopic, [1.5]))):
+    o(f"getEntry-{T.__name__}-{v!r}", accepts(lambda: T(inst.getTopic(f"{P}/sig{i}")).getEntry(v)))
+o("raw-getEntry-without-typestring", accepts(lambda: ntcore.RawTopic(inst.getTopic(P + "/raw0")).getEntry(b"ab")))
+o("raw-getEntry-with-typestring", accepts(lambda: ntcore.RawTopic(inst.getTopic(P + "/raw1")).getEntry("raw", b"ab")))
+o("raw-publish-without-typestring", accepts(lambda: ntcore.RawTopic(inst.getTopic(P + "/raw2")).publish()))
+re = ntcore.RawTopic(inst.getTopic(P + "/raw3")).getEntry("raw", b"ab")
+re.set(b"cd")
+o("raw-roundtrip", re.get().decode() if isinstance(re.get(), (bytes, bytearray)) else str(re.get()))
 print("NTVALIDATE " + json.dumps(obs))
 sys.stdout.flush()
 os._exit(0)
